@@ -151,7 +151,7 @@ MeshOf(g, shape) ==
     [] g = "g2" /\ shape = "uni" -> << <<0,1,2,3>>, <<0,3,4,5>> >>
     [] g = "g2" /\ shape = "mix" -> << <<0,1,2,3>>, <<0,3,4>> >>
 
-NoBack == [ st |-> "none", ok |-> TRUE ]
+NoBack == [ st |-> "none", ok |-> TRUE, closed |-> FALSE ]
 
 (* ---- judging one export when it is produced --------------------------------- *)
 \* a dataset whose metadata names something absent is incomplete: the clauses about its
@@ -226,7 +226,8 @@ WriteNetcdf(k, o) ==
 Reopen(k, via, o) ==
   /\ k \in DOMAIN exports /\ exports[k].status = "ok"
   /\ via = "file" => exports[k].written = "ok"
-  /\ LET r == [ st |-> o.st, ok |-> o.st = "ok" /\ FacesMatch(exports[k].fmt, mesh[exports[k].g], o.faces) ]
+  /\ LET r == [ st |-> o.st, ok |-> o.st = "ok" /\ FacesMatch(exports[k].fmt, mesh[exports[k].g], o.faces),
+                closed |-> Closed(exports[k]) ]   \* judged on the dataset as it was when it was reopened
      IN exports' = IF via = "mem" THEN [ exports EXCEPT ![k].mem = r ] ELSE [ exports EXCEPT ![k].file = r ]
   /\ UNCHANGED <<grid, tmplTopo, tmplEdge>>
 
@@ -239,8 +240,8 @@ Violated ==
       \cup { <<"Serialisable", k, IF v \in grid[e.g].src THEN v \o ":supplied_by_source" ELSE v>> : v \in e.helper }
       \cup (IF e.written = "fail" THEN { <<"Serialisable", k, "to_netcdf">> } ELSE {})
       \cup (IF e.written = "fail_helper_attrs" THEN { <<"Serialisable", k, "to_netcdf_with_helper_attrs">> } ELSE {})
-      \cup (IF Closed(e) /\ (e.mem.st = "raise" \/ ~e.mem.ok) THEN { <<"RoundTrip", k, "mem">> } ELSE {})
-      \cup (IF Closed(e) /\ (e.file.st = "raise" \/ ~e.file.ok) THEN { <<"RoundTrip", k, "file">> } ELSE {})
+      \cup (IF e.mem.closed /\ (e.mem.st = "raise" \/ ~e.mem.ok) THEN { <<"RoundTrip", k, "mem">> } ELSE {})
+      \cup (IF e.file.closed /\ (e.file.st = "raise" \/ ~e.file.ok) THEN { <<"RoundTrip", k, "file">> } ELSE {})
     : k \in DOMAIN exports }
 
 Clause(c) == \A v \in Violated : v[1] # c
